@@ -273,6 +273,9 @@ def passthrough_cases(tier, seed):
                     if gt is not None:
                         out.append({"ref": name, "spec": spec, "gt": gt, "sampler": sampler, "mode": mode,
                                     "npseed": 3 * seed, "reuse": True})
+                    if gt is None or len(gt) == 2:
+                        out.append({"ref": name, "spec": spec, "gt": gt, "sampler": sampler, "mode": mode,
+                                    "npseed": 3 * seed + 1, "late": True})
     return out
 
 
@@ -281,9 +284,10 @@ def run_passthrough(case):
     pa = load()
     c = build_continuum(case["spec"])
     d = A.DISSIMS.get(RECIPE)
-    smp = {"stat": lambda: pa.StatisticalContinuumSampler(),
-           "shuffle_int": lambda: pa.ShuffleContinuumSampler("int_pivot"),
-           "shuffle_float": lambda: pa.ShuffleContinuumSampler("float_pivot")}[case["sampler"]]()
+    make_smp = {"stat": lambda: pa.StatisticalContinuumSampler(),
+                "shuffle_int": lambda: pa.ShuffleContinuumSampler("int_pivot"),
+                "shuffle_float": lambda: pa.ShuffleContinuumSampler("float_pivot")}[case["sampler"]]
+    smp = make_smp()
     np.random.seed(case["npseed"])
     probs = []
     try:
@@ -293,6 +297,22 @@ def run_passthrough(case):
                 # (all annotators as ground truth), then the continuum got one more unit
                 c.compute_gamma(d, n_samples=1, sampler=smp, **MODES[case["mode"]])
             res = c.compute_gamma(d, n_samples=3, ground_truth_annotators=case["gt"], sampler=smp, **MODES[case["mode"]])
+            if case.get("late"):
+                # history: the results object is first read AFTER the caller went on editing the input continuum;
+                # what it reports is the computation that was made, i.e. what an identical computation read at once reports
+                from pyannote.core import Segment
+                first = sorted(a for a, _ in case["spec"]["annotators"])[0]
+                c.add(first, Segment(50, 53), "y")
+                c.add_annotator("zz_late")
+                np.random.seed(case["npseed"])
+                twin = build_continuum(case["spec"]).compute_gamma(d, n_samples=3, ground_truth_annotators=case["gt"],
+                                                                   sampler=make_smp(),
+                                                                   **MODES[case["mode"]])
+                now = (float(twin.observed_disorder), float(twin.expected_disorder), float(twin.gamma))
+                late = (float(res.observed_disorder), float(res.expected_disorder), float(res.gamma))
+                if not all(close(x, y) for x, y in zip(now, late)):
+                    probs.append(f"(observed, expected, gamma) read after the input continuum was edited: {late}, but the same "
+                                 f"computation read at once gives {now}")
     except Exception as e:  # noqa
         return [f"compute_gamma raised: {type(e).__name__}: {e}"], None
     byann = dict(spec_by_annotator(case["spec"]))
